@@ -353,9 +353,12 @@ class Renderer:
             self.declaration(node[2][0])
             self.emit(self.tok['IN'])
             self.setexpr(node[2][1])
-            if not self.space():
+            pred = node[2][2]
+            # the predicate may touch the domain when it starts with a bracket (or, in MATH, with a one-symbol operator)
+            tight = (pred[0] in LOGIC_BINARY or (self.tok is MATH and pred[0] in ('NOT', 'FORALL', 'EXISTS'))) and self.ws > 0 and self.rnd.random() < 0.3
+            if not tight and not self.space():
                 self.space(force=True)
-            self.logic(node[2][2], 'nobinary')
+            self.logic(pred, 'nobinary')
             self.record(node, s, self._outer(node[2][2])[1])
         elif i == 'NT_FUNC_CALL':
             self._set_other(node)
